@@ -866,6 +866,8 @@ def gen_preserve(g, op=None):
     pool = g.pool(n, max_elems=cap)
     if op in ("sort", "argsort"):
         marked = [rng.choice(pool)]
+    elif op == "flip" and rng.random() < 0.12:
+        marked = []  # flipping no axis at all is the identity (still a real call: factories must run, outputs are checked)
     else:
         marked = rng.sample(pool, rng.randint(1, n))
         if op in ("softmax", "log_softmax"):
@@ -994,13 +996,29 @@ def gen_update(g, op=None):
     kinds.append("uint8" if UINT8_UPDATES and rng.random() < 0.3 else "int")
     ins = [e_t] + coords + [e_u]
     tags = set()
-    if rng.random() < 0.5:
+    r_form = rng.random()
+    if r_form < 0.4:
         e_out = e_t
         desc = show_op(ins)
         tags.add("implicit-output")
-    else:
+    elif r_form < 0.7 or len(e_t) < 2:
         e_out = e_t
         desc = show_op(ins, [e_out])
+    else:
+        # explicit output that re-orders the target's top-level items (bracketed items keep their relative order)
+        items = list(e_t)
+        br_pos = [i for i, it in enumerate(items) if any(isinstance(x, Brk) for x in _walk_items((it,)))]
+        for _ in range(10):
+            perm = list(range(len(items)))
+            rng.shuffle(perm)
+            if [p for p in perm if p in br_pos] == br_pos and perm != list(range(len(items))):
+                break
+        else:
+            perm = list(range(len(items)))
+        e_out = tuple(items[p] for p in perm)
+        desc = show_op(ins, [e_out])
+        if perm != list(range(len(items))):
+            tags.add("output-reorders-target")
     # axes that only coordinates / updates have
     tn = {l.name for l, _ in leaves(e_t) if isinstance(l, Ax)}
     cn = {l.name for e in coords for l, b in leaves(e) if isinstance(l, Ax) and not b}
@@ -1135,6 +1153,44 @@ def exhaustive(family):
                             e_out = tuple(perm)
                             kw = make_kwargs(random.Random(0), [e_in], [e_out], extra_prob=0.0)
                             cases.append(_case(op, "reduce", show_op([e_in], [e_out]), [e_in], [e_out], kw, tags={"exhaustive"} | tags_of([e_in, e_out])))
+    if family == "argfind-brackets":
+        # every bracket pattern over three axes, with unit axes in every position, for argmax (explicit '[k]' output)
+        for sizes in [(2, 2, 3), (1, 2, 3), (2, 1, 3), (2, 3, 1), (1, 3, 1)]:
+            axes_ = [Ax(n, s) for n, s in zip("abc", sizes)]
+            for k in range(1, 4):
+                for marked in itertools.combinations(range(3), k):
+                    runs, cur = [], []
+                    for i in range(3):
+                        if i in marked:
+                            cur.append(i)
+                        elif cur:
+                            runs.append(cur)
+                            cur = []
+                    if cur:
+                        runs.append(cur)
+                    for joint in itertools.product([True, False], repeat=len(runs)):
+                        if any(j and len(r) == 1 for j, r in zip(joint, runs)):
+                            continue
+                        items, i = [], 0
+                        while i < 3:
+                            r = next((r for r in runs if r[0] == i), None)
+                            if r is None:
+                                items.append(axes_[i])
+                                i += 1
+                            elif joint[runs.index(r)]:
+                                items.append(Brk(tuple(axes_[j] for j in r)))
+                                i += len(r)
+                            else:
+                                items.extend(Brk((axes_[j],)) for j in r)
+                                i += len(r)
+                        e_in = tuple(items)
+                        rest = [axes_[i] for i in range(3) if i not in marked]
+                        for pos in range(len(rest) + 1):
+                            o = list(rest)
+                            o.insert(pos, Brk((Num(k),)))
+                            e_out = tuple(o)
+                            cases.append(_case("argmax", "argfind", show_op([e_in], [e_out]), [e_in], [e_out], {}, tags={"exhaustive", "bracket-pattern"} | tags_of([e_in, e_out])))
+        return cases
     if family == "reduce-brackets":
         # every bracket pattern over four axes; adjacent bracketed axes written jointly ('[a b]') or one by one
         for sizes in [(2, 2, 2, 2), (2, 3, 2, 2)]:
